@@ -279,9 +279,11 @@ pub fn run(tier: Tier) -> i32 {
     let exec_leaves = tier.pick(3, 3);
     let pols = policies(n_leaves);
     rep.extra("bounds", json!({"policy_leaves": n_leaves, "executed_up_to_leaves": exec_leaves, "policies": pols.len(), "weights": ["1@1", "9@1", "1@9"], "thresh_arity": 4}));
+    // hook H2: record every candidate the compiler considers (once per distinct context + text)
     let cen = pols
         .par_iter()
         .fold(Census::new, |mut cen, pol| {
+            miniscript::policy::compiler::verif::enable();
             bump(&mut cen, "policies");
             let real: Concrete<String> = pol.to_concrete();
             let exec = pol.n_leaves() <= exec_leaves;
@@ -339,6 +341,49 @@ pub fn run(tier: Tier) -> i32 {
             a
         });
     rep.merge_counts(&cen);
+    // every candidate's cached type / extra data (Cast tables, AstElemExt::{binary,ternary}) must
+    // equal what the type checker computes for the same fragment
+    let mut cands: Vec<miniscript::policy::compiler::verif::Candidate> = rayon::broadcast(|_| miniscript::policy::compiler::verif::take()).into_iter().flatten().collect();
+    cands.extend(miniscript::policy::compiler::verif::take());
+    cands.sort_by(|a, b| (a.0, &a.1).cmp(&(b.0, &b.1)));
+    cands.dedup_by(|a, b| a.0 == b.0 && a.1 == b.1);
+    rep.count("compiler_candidates_distinct", cands.len() as u64);
+    let ok_c = std::sync::atomic::AtomicU64::new(0);
+    cands.par_iter().for_each(|(ctx, text, ty, ext)| {
+        fn recompute<C: ScriptContext>(text: &str) -> Result<(miniscript::miniscript::types::Type, miniscript::miniscript::types::ExtData), String> {
+            Miniscript::<String, C>::from_str_with_validation_params(text, &miniscript::ValidationParams::MAX).map(|m| (m.ty, m.ext)).map_err(|e| e.to_string())
+        }
+        let r = match *ctx {
+            "Segwitv0" => recompute::<Segwitv0>(text),
+            "Legacy/p2sh" => recompute::<Legacy>(text),
+            "BareCtx" => recompute::<BareCtx>(text),
+            "TapscriptCtx" => recompute::<Tap>(text),
+            other => Err(format!("unknown context {}", other)),
+        };
+        match r {
+            Ok((t2, e2)) => {
+                if t2 != *ty || e2 != *ext {
+                    rep.violation(Violation {
+                        key: format!("C08|candidate-cached-data|{}|{}", ctx, text),
+                        class: "compiler-candidate-type-or-ext-differs".into(),
+                        what: format!("a compiler candidate carries type/extra data different from the type checker's: {}", if t2 != *ty { "type" } else { "ext data" }),
+                        case: json!({"ctx": ctx, "candidate": text, "cached": format!("{:?} {:?}", ty, ext), "recomputed": format!("{:?} {:?}", t2, e2)}),
+                    });
+                } else {
+                    ok_c.fetch_add(1, std::sync::atomic::Ordering::Relaxed);
+                }
+            }
+            Err(e) => {
+                rep.violation(Violation {
+                    key: format!("C08|candidate-unparseable|{}|{}", ctx, text),
+                    class: "compiler-candidate-rejected-by-type-checker".into(),
+                    what: format!("a compiler candidate is refused by the parser / type checker: {}", e),
+                    case: json!({"ctx": ctx, "candidate": text}),
+                });
+            }
+        }
+    });
+    rep.count("compiler_candidates_confirmed", ok_c.load(std::sync::atomic::Ordering::Relaxed));
     rep.sample(json!({"policy": pols.last().map(|p| p.sexpr())}));
     rep.sample(json!({"entry_points": ["compile::<Segwitv0|Tap|Legacy|BareCtx>", "compile_to_descriptor (Bare, Sh, Wsh, ShWsh, Tr)", "compile_tr", "compile_tr_native (caps 1, 2, 1024)", "compile_tr_private_experimental", "each with and without an unspendable key"]}));
     rep.assume("compiler Err is not a violation; the Ok ratio is reported");
@@ -350,7 +395,7 @@ pub fn run(tier: Tier) -> i32 {
         rep.get("meaning_preserved") + rep.get("worlds_executed") + rep.get("types_rebuilt_equal"),
         rep.get("compile_calls"),
         ok.min(rep.get("worlds_executed").max(2)),
-        "ALL concrete policies up to the leaf bound (and / or with odds 1:1, 9:1, 1:9 / thresh arity <= 4, all k; leaves from key, sha256, after(height), older, after(time); distinct keys) x every compiler entry point: output truth table == policy truth table (own lift, all assignments), small policies additionally executed on the RSM in every world, output sane / signed / non-malleable / within limits / no forbidden fragment, stored ty/ext of every node equal from_ast, string re-parses with the default parser to the same structure. non-trivial = min(successful compilations, worlds executed)",
+        "ALL concrete policies up to the leaf bound (and / or with odds 1:1, 9:1, 1:9 / thresh arity <= 4, all k; leaves from key, sha256, after(height), older, after(time); distinct keys) x every compiler entry point: output truth table == policy truth table (own lift, all assignments), small policies additionally executed on the RSM in every world, output sane / signed / non-malleable / within limits / no forbidden fragment, stored ty/ext of every node equal from_ast, every candidate the compiler considered on the way (hook H2; Cast tables, binary / ternary constructors) carries the type and extra data the type checker computes, string re-parses with the default parser to the same structure. non-trivial = min(successful compilations, worlds executed)",
         true,
     )
 }
